@@ -142,8 +142,23 @@ def oracle_structure(case: dict) -> Outcome:
         with torch.no_grad():
             blocks[0][idx0] = v
     # gradient blocks: same index sets, same order, only for parameters with a gradient
-    for p, m in zip(params, mask):
-        p.grad = p.detach().clone() if m else None
+    strided = False
+    for pi, (p, m) in enumerate(zip(params, mask)):
+        if not m:
+            p.grad = None
+            continue
+        g = p.detach().clone()
+        perm = (case.get("glayout") or [None] * len(params))[pi]
+        md_i = rm.block_slices(shapes[pi], thr, merge)[0]
+        if perm and len(perm) == g.dim() and g.dim() >= 2 and tuple(md_i) == tuple(shapes[pi]):
+            # same values and shape, different memory layout (a user- or hook-assigned gradient need not be row-major);
+            # only where grad.view(merged dims) is still legal, i.e. where the shape is not changed by merging
+            inv = [perm.index(i) for i in range(len(perm))]
+            g = g.permute(*perm).contiguous().permute(*inv)
+            strided = strided or not g.is_contiguous()
+        p.grad = g
+    if strided:
+        out.classes.append("non_row_major_gradient")
     ok, gb = call_sut(out, "C05.vi.grad_blocks", "merge_and_block_gradients", lambda: dist.merge_and_block_gradients())
     if ok:
         want_g = []
@@ -190,7 +205,8 @@ def strategy_structure():
         mpd = draw(st.one_of(st.integers(1, 12), st.just(1024)))
         k = draw(st.integers(1, 3))
         shapes = [draw(gen.st_shape(mpd, max_order=4, max_numel=2000)) for _ in range(k)]
-        return {"shapes": shapes, "mpd": mpd, "merge": draw(st.booleans()), "mask": [draw(st.booleans()) for _ in range(k)]}
+        glayout = [draw(st.one_of(st.none(), st.permutations(list(range(len(sh)))))) if len(sh) >= 2 else None for sh in shapes]
+        return {"shapes": shapes, "mpd": mpd, "merge": draw(st.booleans()), "mask": [draw(st.booleans()) for _ in range(k)], "glayout": glayout}
 
     return case()
 
